@@ -119,6 +119,10 @@ def module_source(curve):
     A("            \"mulgen\" => { let sc = Scalar::decode_reduce(&a[a.len() - 1]); P.set_mulgen(&sc); }")
     A("            \"basemul\" => { P = Point::BASE; P.set_xdouble(n as u32); let kk = u64::from_le_bytes(<[u8; 8]>::try_from(&a[a.len() - 1][..8]).unwrap()); P.set_mul_small(kk); }")
     A("            \"base\" => { P = Point::BASE; }")
+    if not d.get("wrap"):
+        A("            \"vt\" => { let su = Scalar::decode_reduce(&a[a.len() - 2]); let sv = Scalar::decode_reduce(&a[a.len() - 1]); P.set_mul_add_mulgen_vartime(&su, &sv); }")
+    if curve in ("jq255e", "jq255s"):
+        A("            \"vt128\" => { let su = u128::from_le_bytes(<[u8; 16]>::try_from(&a[a.len() - 2][..16]).unwrap()); let sv = Scalar::decode_reduce(&a[a.len() - 1]); P.set_mul128_add_mulgen_vartime(su, &sv); }")
     for tname, (lay, fs) in TABLES.get(curve, {}).items():
         if lay == "struct":
             ent = ", ".join("%s[n as usize].%s.encode().to_vec()" % (tname, f) for f in fs)
